@@ -96,6 +96,29 @@ def timePd (val : F → F) (ivs : List (F × F)) (S t : F) : F :=
 def timePdOrig (val : F → F) (ivs : List (F × F)) (S t : F) : F :=
   if Livetime.isOn ivs t = true then val t / S else 0
 
+/-- `BackgroundTimePDF.initialize_for_new_trial` / `SignalTimePDF._calculate_pd`, as coded, for a whole
+trial: a fresh zero array, then the masked assignment `pd[on] = profile(times[on]) / S` (only when
+`S > 0`).  `prev` is whatever the object held from the previous trial — the code ignores it. -/
+def trialPd (val : F → F) (ivs : List (F × F)) (S : F) (_prev : Option (List F)) (times : List F) : List F :=
+  let zeros := times.map (fun _ => (0 : F))
+  List.zipWith (fun z t => if Livetime.isOn ivs t = true ∧ 0 < S then val t / S else z) zeros times
+
+/-- a variant that re-uses the previous trial's array when the event count is unchanged and only
+overwrites the on-time entries (not the code; kept for `c10_time_trial_reuse_counterexample`) -/
+def trialPdReuse (val : F → F) (ivs : List (F × F)) (S : F) (prev : Option (List F)) (times : List F) : List F :=
+  let zeros := times.map (fun _ => (0 : F))
+  let buf := match prev with
+    | some b => if b.length = times.length then b else zeros
+    | none => zeros
+  List.zipWith (fun z t => if Livetime.isOn ivs t = true ∧ 0 < S then val t / S else z) buf times
+
+/-- the densities returned for a sequence of trials on one object -/
+def trialsRun (val : F → F) (ivs : List (F × F)) (S : F) : Option (List F) → List (List F) → List (List F)
+  | _, [] => []
+  | prev, times :: rest =>
+    let pd := trialPd val ivs S prev times
+    pd :: trialsRun val ivs S (some pd) rest
+
 end timepdf
 
 /-! ### the cached normalisation `_S` as a state machine
@@ -278,6 +301,45 @@ def spatialHist (edges : List F) (evs : List (F × F)) : Option (List F) :=
   else
     let p := List.zipWith (fun h w => h / tot / w) hs (widths edges)
     if p.any (fun v => decide (v ≤ 0)) then none else some p
+
+/-- `h / h.sum() / diff(edges)` -/
+def normHist (hs ws : List F) : List F :=
+  let tot := sumSeq hs
+  List.zipWith (fun h w => h / tot / w) hs ws
+
+/-- state of a `BackgroundI3SpatialPDF`: `_orig_hist` (raw weighted histogram), the normalised
+histogram behind `_orig_log_spline` and the one behind the current `_log_spline` -/
+structure SpState (F : Type) where
+  origHist : List F
+  orig : List F
+  cur : List F
+
+inductive SpOp (F : Type) where
+  | addEvents (xs : List F)
+  | reset
+
+/-- constructor (`none` = ValueError) -/
+def spInit (edges : List F) (evs : List (F × F)) : Option (SpState F) :=
+  (spatialHist edges evs).map (fun p => { origHist := hist1 edges evs, orig := p, cur := p })
+
+/-- `add_events`: un-weighted histogram of the new events (values outside the binning are dropped
+by `np.histogram`), added to `_orig_hist` (not cumulative), normalised by the sum of the *updated*
+histogram; `reset`: back to the original spline. -/
+def spStep [OfNat F 1] (edges : List F) (s : SpState F) : SpOp F → SpState F
+  | .addEvents xs =>
+    let h := List.zipWith (· + ·) s.origHist (hist1 edges (xs.map (fun x => (x, (1 : F)))))
+    { s with cur := normHist h (widths edges) }
+  | .reset => { s with cur := s.orig }
+
+def spRun [OfNat F 1] (edges : List F) (s : SpState F) (ops : List (SpOp F)) : SpState F :=
+  ops.foldl (spStep edges) s
+
+/-- `add_events` normalising by `_orig_hist.sum() + len(events)` (not the code; kept for
+`c10_spatial_add_events_wrong_norm_counterexample`) -/
+def spStepLenNorm [OfNat F 1] (edges : List F) (s : SpState F) (xs : List F) : SpState F :=
+  let h := List.zipWith (· + ·) s.origHist (hist1 edges (xs.map (fun x => (x, (1 : F)))))
+  let tot := sumSeq s.origHist + sumSeq (xs.map (fun _ => (1 : F)))
+  { s with cur := List.zipWith (fun v w => v / tot / w) h (widths edges) }
 
 end histnum
 
